@@ -15,6 +15,7 @@ def translate(mesh : Mesh, tr : Vec) -> Mesh:
     Returns:
         Mesh: the translated mesh
     """
+    tr = np.array(tr, dtype=float) # own copy: tr may be one of the vertices of the mesh
     for i in mesh.id_vertices:
         mesh.vertices[i] += tr
     return mesh
